@@ -114,7 +114,8 @@ def work_rich(args):
       bt, _ = X.reparse(X.render(base))
       ob0, _ = X.observe(bt, [], base["P"]["D"])
       tree = X.render(base, override=override)
-      rec, meta = _record("corrupt" if demands_log else "unknown", 0, _strip(base), times, tree,
+      kind = "corrupt" if demands_log else ("unknown" if what.get("foreign") else "unknown_tt")
+      rec, meta = _record(kind, 0, _strip(base), times, tree,
                           {"origin": "corrupt", "seed": seed, "k": k, "what": what, "value": override[2],
                            "baseline_crashed": ob0["crashed"]}, logs_base=ob0["logs"])
       out.append((rec, meta))
@@ -140,7 +141,7 @@ def features(rec, meta, clause, j, detail):
   f["has_seq"] = any(nd["tc"] == "seq" for nd in N)
   f["has_set"] = any(nd["kind"] == "set" for nd in N)
   f["has_regions"] = any(nd["kind"] == "region" for nd in N)
-  if rec["kind"] in ("corrupt", "unknown"):
+  if rec["kind"] in ("corrupt", "unknown", "unknown_tt"):
     w = meta.get("what", {})
     f["attr"] = w.get("attr", "")
     f["on"] = w.get("on", "")
@@ -170,7 +171,7 @@ def validate(ctx, recs, metas, label, nproc):
       raise T.MachineryError(f"trace {label} not consumed: " + res.out[-2500:])
     ctx.tlc(res, "trace validation " + label)
     skipped += len(res.values("SKIP"))
-    ctx.count(label + ":unknown_attribute_not_reported", len(res.values("NOTE")))
+    ctx.count(label + ":foreign_attribute_not_reported", len(res.values("NOTE")))
     seen = set()
     for v in res.values("FAIL"):
       _, r, j, clause, detail = v
@@ -193,13 +194,36 @@ def validate(ctx, recs, metas, label, nproc):
       else:
         case["items"] = rec["items"]
       what = f"{meta.get('origin')} {clause} {detail} " + (meta.get("err") or "")
-      if rec["kind"] in ("corrupt", "unknown"):
+      if rec["kind"] in ("corrupt", "unknown", "unknown_tt"):
         what += f" attr={f.get('attr')} on={f.get('on')} value={meta.get('value')!r}"
       ctx.violation(clause, case, f, what.strip())
   ctx.count(label + ":outside_timing_domain", skipped)
 
 
+def use_fragment(pid):
+  """Transitional: known findings of this property live in /verif/findings_<pid>.json until they are merged into
+  known_findings.json (entries already present there win)."""
+  from .. import core
+  path = os.path.join(core.VERIF, "findings_%s.json" % pid)
+  if not os.path.exists(path):
+    return
+  with open(path) as fh:
+    frag = json.load(fh).get("findings", [])
+  base = core.load_findings
+  if getattr(base, "_with_fragment", False):
+    return
+
+  def merged():
+    have = base()
+    ids = {e.get("id") for e in have}
+    return have + [e for e in frag if e.get("id") not in ids]
+
+  merged._with_fragment = True
+  core.load_findings = merged
+
+
 def run(ctx):
+  use_fragment(PID)
   thorough = ctx.thorough()
   ctx.rule = ("a case is one XML document read by imsc.reader and observed through ISD.from_model at each probe time "
               "(every half unit for the enumerated family); non-trivial = at least one text leaf is visible at some "
@@ -249,7 +273,7 @@ def run(ctx):
   items = [(k, sh, asg) for k, (sh, asg) in enumerate(family)]
 
   # ---- 2. run the implementation ------------------------------------------------------------------------
-  nrich = 8000 if thorough else 260
+  nrich = 20000 if thorough else 260
   ncorrupt = 3
   chunks = [items[k:k + 100] for k in range(0, len(items), 100)]
   per = 20
@@ -281,7 +305,7 @@ def run(ctx):
   ctx.count("family_documents_replayed", len(fam_recs))
   ctx.count("random_documents", sum(1 for r in rich_recs if r["kind"] == "doc"))
   ctx.count("malformed_attribute_cases", sum(1 for r in rich_recs if r["kind"] == "corrupt"))
-  ctx.count("unknown_attribute_cases", sum(1 for r in rich_recs if r["kind"] == "unknown"))
+  ctx.count("unknown_attribute_cases", sum(1 for r in rich_recs if r["kind"] in ("unknown", "unknown_tt")))
   ctx.count("value_form_groups", len(forms_recs))
   if fam_recs:
     ctx.sample({"family_case": fam_metas[0].get("shape"), "asg": fam_metas[0].get("asg"), "xml": fam_metas[0]["xml"][:600],
